@@ -210,13 +210,18 @@ REQ_T2 = "goproto.proto.test.TestRequiredForeign"
 REQ_TYPES = [REQ_T2, REQ_T2 + ":dyn", "goproto.proto.test.TestRequired", REQ_TE, REQ_TE + ":dyn", "hybrid." + REQ_TE, "opaque." + REQ_TE,
              "opaque.goproto.proto.testeditions.TestRequired", "opaque.goproto.proto.testeditions.TestRequiredLazy",
              "goproto.proto.testeditions.TestRequiredLazy", "goproto.proto.testeditions.TestRequiredGroupFields",
-             "goproto.proto.test.TestRequiredGroupFields", "goproto.proto.test.TestAllExtensions"]
+             "goproto.proto.test.TestRequiredGroupFields", "goproto.proto.test.TestAllExtensions",
+             "goproto.proto.test.TestOneofWithRequired", "goproto.proto.testeditions.TestOneofWithRequired",
+             "opaque.goproto.proto.testeditions.TestOneofWithRequired", "hybrid.goproto.proto.testeditions.TestOneofWithRequired"]
+REQ_ONEOF = "goproto.proto.testeditions.TestOneofWithRequired"
 
 
 @check("C10")
 def c10(res, tier, seed):
     b = build_harness(PKG)
     mc(res, b, "req-te", REQ_TE, [1, 2, 3, 4], ["checkinit", "marshal", "uenc", "merge"], D(tier, 2, 3), nest_at=1, nest_fields=[1])
+    # a oneof whose SECOND member carries the required field (F26: the table decoder consulted only the first member's isInit)
+    mc(res, b, "req-oneof", REQ_ONEOF, [1, 2], ["checkinit", "marshal", "uenc", "merge"], D(tier, 2, 3), nest_at=2, nest_fields=[1])
     mc2(tier, res, b, "req-t2", REQ_T2, [1, 2, 3], ["checkinit", "marshal", "uenc"], 2, nest_at=1, nest_fields=[1])
     finish(res, b, seed, tier, "mut=10,checkinit=4,marshal=3,unmarshal=4,rt=1,merge=1", types=REQ_TYPES)
 
